@@ -34,7 +34,7 @@ pub const DEF: CheckDef = CheckDef {
     id: "C14",
     run,
     technique: "bounded-exhaustive enumeration of (prefix context x fault x include location) with generator-computed first/last/fault line of the one invalid entry in original-file numbering; the rendered error chain of the real loader/parser/book-keeper (FakeFileSystem in-process, and the in-process CLI on real files for a fixed subset) is parsed (named path, `-->` line, gutter numbers, snippet text) and compared with the generator's numbers and with the original file's lines",
-    rule: "case = (context, fault, location, fs). Context = 8 slots with a default each (leading blank lines 0-3; blank lines between preceding content and the bad entry 1/0/2/3; LF/CRLF; preceding content none/comment block/transaction/two transactions/directives/mix; multi-byte marker none/2-/3-/4-byte UTF-8 in preceding payees, comments, account names and inside the bad entry before the fault; following content none/transaction/transaction+comment; blank lines after the bad entry 1/0/2; final newline present/absent): all contexts with <= 2 non-default slots (thorough: ALL contexts, i.e. the full product of the 8 slots). Fault = every entry of the fault table (syntactic: bad date, bad effective date, unknown directive, malformed number / unclosed parenthesis / duplicated lot price / dangling @ / dangling = / bad lot date / trailing garbage on posting k=1..3, unindented posting, bare include, bad sub-line of account/commodity, malformed apply tag / end; semantic: unbalanced, false assertion on posting j, two omitted postings, zero rate, zero total, same-commodity cost/lot, zero lot, zero amount with cost, expression errors, `= 0` on a multi-commodity account, account/commodity alias conflicts). Location = root, or literal/glob include at depth 1/2 below a root with a short or long preamble (and, for faults needing an earlier declaration, that declaration in the bad file or in the root). Include-before-entry family: in the file of the bad entry (root or included) an `include` line precedes the entry, its target being an empty / newline-only / whitespace-only / comment-only / valid file or a glob matching blank files among valid ones (7 kinds) x all faults x contexts with <= 1 (thorough <= 2) non-default slots  x root + 4 include shapes (thorough: all locations). Binary family: the real hooks-off `okane` binary (stderr = the diagnostic) for balance, register, primitive eval (+ accounts, primitive flatten for syntax faults) x all faults x default context (thorough <= 1 non-default slot) x root + 4 include shapes (+ after an include of an empty file). Long-entry family: transactions of 2, 5, 10, 11, 12, 30 lines with the fault (false assertion, zero rate, same-commodity cost, second omitted posting, dangling @, unclosed parenthesis) on EVERY posting line incl. the last x contexts with <= 1 (thorough <= 2) non-default slots x root / literal depth 1 / glob depth 2 (thorough: all locations), plus the real binary for faults on entry line 11 and on the last line. Per-posting syntax faults include unclosed `(` lot note, `{`, `{{`, `[` and stray closers, and all following content carries `( ) @ { } [ ] \"`. states = cases executed, transitions = line numbers + snippet lines compared",
+    rule: "case = (context, fault, location, fs). Context = 8 slots with a default each (leading blank lines 0-3; blank lines between preceding content and the bad entry 1/0/2/3; LF/CRLF; preceding content none/comment block/transaction/two transactions/directives/mix; multi-byte marker none/2-/3-/4-byte UTF-8 in preceding payees, comments, account names and inside the bad entry before the fault; following content none/transaction/transaction+comment; blank lines after the bad entry 1/0/2; final newline present/absent): all contexts with <= 2 non-default slots (thorough: ALL contexts, i.e. the full product of the 8 slots). Fault = every entry of the fault table (syntactic: bad date, bad effective date, unknown directive, malformed number / unclosed parenthesis / duplicated lot price / dangling @ / dangling = / bad lot date / trailing garbage on posting k=1..3, unindented posting, bare include, bad sub-line of account/commodity, malformed apply tag / end; semantic: unbalanced, false assertion on posting j, two omitted postings, zero rate, zero total, same-commodity cost/lot, zero lot, zero amount with cost, expression errors, `= 0` on a multi-commodity account, account/commodity alias conflicts). Location = root, or literal/glob include at depth 1/2 below a root with a short or long preamble (and, for faults needing an earlier declaration, that declaration in the bad file or in the root). Include-before-entry family: in the file of the bad entry (root or included) an `include` line precedes the entry, its target being an empty / newline-only / whitespace-only / comment-only / valid file or a glob matching blank files among valid ones (7 kinds) x all faults x contexts with <= 1 (thorough <= 2) non-default slots  x root + 4 include shapes (thorough: all locations). Binary family: the real hooks-off `okane` binary (stderr = the diagnostic) for balance, register, primitive eval (+ accounts, primitive flatten for syntax faults) x all faults x default context (thorough <= 1 non-default slot) x root + 4 include shapes (+ after an include of an empty file). Long-entry family: transactions of 2, 5, 10, 11, 12, 30 lines with the fault (false assertion, zero rate, same-commodity cost, second omitted posting, dangling @, unclosed parenthesis) on EVERY posting line incl. the last x contexts with <= 1 (thorough <= 2) non-default slots x root / literal depth 1 / glob depth 2 (thorough: all locations), plus the real binary for faults on entry line 11 and on the last line. Entry-end family (full product, no deviation bound): last line of the entry = posting / posting with inline note / `;` comment line / tag line / key-value line / comment or note line of a directive x followed by 0-3 empty lines or one whitespace-only line and then the next entry or the end of the file (also EOF without final newline) x all semantic faults and the syntactic ones not on the last line x LF/CRLF x root / literal depth 1 / glob depth 2 (thorough: all locations and markers). Per-posting syntax faults include unclosed `(` lot note, `{`, `{{`, `[` and stray closers, and all following content carries `( ) @ { } [ ] \"`. states = cases executed, transitions = line numbers + snippet lines compared",
     assumptions: &[
         "the generator's own line arithmetic (positions in a Vec of lines) is the reference; every line of a generated file is textually distinct from its neighbours, so a snippet line identifies its line number",
         "for a syntax error the allowed range is [first line of the entry, fault line]; a number after the fault line but inside the entry (or the blank line / end of file directly after it) is DON'T-CARE because the statement does not pin where a parser may stop; a number before the entry or inside another entry is a violation",
@@ -482,7 +482,69 @@ fn incb_files(k: u8) -> (String, Vec<(String, String)>) {
     }
 }
 
+/// What follows the bad entry (entry-end family): n empty lines or one whitespace-only line, then the next entry or
+/// the end of the file.
+#[derive(Clone, Copy, Debug)]
+struct Trail {
+    blanks: u8,
+    ws_line: bool,
+    next_entry: bool,
+    final_nl: bool,
+}
+
+impl Trail {
+    fn name(&self) -> String {
+        format!(
+            "{}, then {}",
+            if self.ws_line { "one whitespace-only line".to_string() } else { format!("{} empty line(s)", self.blanks) },
+            if self.next_entry { "the next entry".to_string() } else { format!("end of file ({} final newline)", if self.final_nl { "with" } else { "without" }) }
+        )
+    }
+}
+
+fn trails() -> Vec<Trail> {
+    let mut out = vec![];
+    for next_entry in [true, false] {
+        for blanks in 0..=3u8 {
+            out.push(Trail { blanks, ws_line: false, next_entry, final_nl: true });
+        }
+        out.push(Trail { blanks: 1, ws_line: true, next_entry, final_nl: true });
+    }
+    out.push(Trail { blanks: 0, ws_line: false, next_entry: false, final_nl: false });
+    out
+}
+
+/// The same fault with another kind of LAST line of the entry (None where the kind does not apply).
+const NTAILS: u8 = 6;
+fn tail_name(t: u8) -> &'static str {
+    ["as-generated", "inline-note-on-the-last-posting", "comment-line", "tag-line", "key-value-line", "note-line-of-a-directive"][t as usize]
+}
+fn tailed(f: &Fault, tail: u8, m: &str) -> Option<Fault> {
+    let is_txn = f.lines[0].chars().next().map(|c| c.is_ascii_digit()).unwrap_or(false);
+    let is_directive = f.lines[0].starts_with("account ") || f.lines[0].starts_with("commodity ");
+    let mut g = f.clone();
+    match tail {
+        0 => {}
+        1 if is_txn && f.lines.len() > 1 => {
+            let n = g.lines.len();
+            g.lines[n - 1].push_str(&format!("  ; inline note {m}"));
+        }
+        2 if is_txn => g.lines.push(format!("    ; trailing remark {m}")),
+        2 if is_directive => g.lines.push(format!("  ; trailing remark {m}")),
+        3 if is_txn => g.lines.push("    ; :tagA:tagB:".to_string()),
+        4 if is_txn => g.lines.push(format!("    ; Payee: Somebody {m}")),
+        5 if is_directive => g.lines.push(format!("  note trailing {m}")),
+        _ => return None,
+    }
+    g.name = format!("{}/last-line={}", f.name, tail_name(tail));
+    Some(g)
+}
+
 fn build_bad_file(s: &Slots, f: &Fault, setup_here: bool, incb: u8) -> BadFile {
+    build_bad_file_with(s, f, setup_here, incb, None)
+}
+
+fn build_bad_file_with(s: &Slots, f: &Fault, setup_here: bool, incb: u8, trail: Option<&Trail>) -> BadFile {
     let m = marker(s[S_MB]);
     let mut lines: Vec<String> = vec![];
     for _ in 0..s[S_LEAD] {
@@ -515,7 +577,22 @@ fn build_bad_file(s: &Slots, f: &Fault, setup_here: bool, incb: u8) -> BadFile {
     lines.extend(f.lines.iter().cloned());
     let last = lines.len();
     let fault = first + f.fault;
-    let suf = suffix_lines(s[S_SUFFIX], m);
+    let mut suf = suffix_lines(s[S_SUFFIX], m);
+    let mut final_nl = s[S_FINALNL] == 0;
+    if let Some(t) = trail {
+        if t.ws_line {
+            lines.push("   ".to_string());
+        } else {
+            for _ in 0..t.blanks {
+                lines.push(String::new());
+            }
+        }
+        suf = vec![];
+        if t.next_entry {
+            lines.extend(suffix_lines(1, m));
+        }
+        final_nl = t.final_nl;
+    }
     if !suf.is_empty() {
         for _ in 0..[1, 0, 2][s[S_GAPAFTER] as usize] {
             lines.push(String::new());
@@ -523,7 +600,6 @@ fn build_bad_file(s: &Slots, f: &Fault, setup_here: bool, incb: u8) -> BadFile {
         lines.extend(suf);
     }
     let eol = if s[S_EOL] == 0 { "\n" } else { "\r\n" };
-    let final_nl = s[S_FINALNL] == 0;
     let mut text = lines.join(eol);
     if final_nl {
         text.push_str(eol);
@@ -905,7 +981,7 @@ fn judge(obs: &Observed, lay: &Layout, bf: &BadFile, f: &Fault, loc: &Loc, via: 
     // provided it is blank or the end of the file (never when it belongs to another entry)
     let after_is_blank_or_eof = match bf.lines.get(bf.last) {
         None => true,
-        Some(l) => l.is_empty(),
+        Some(l) => l.trim().is_empty(),
     };
     let hard_upper = if f.kind == Kind::Syntax && after_is_blank_or_eof { bf.last + 1 } else { bf.last };
     let soft_upper = if f.kind == Kind::Syntax { bf.fault } else { bf.last };
@@ -1085,7 +1161,13 @@ fn self_check() {
         common.retain(|l| !l.is_empty());
         common.sort();
         common.dedup();
-        for f in faults(m).into_iter().chain(long_faults(m)) {
+        let mut tl: Vec<Fault> = vec![];
+        for f in faults(m) {
+            for t in 1..NTAILS {
+                tl.extend(tailed(&f, t, m));
+            }
+        }
+        for f in faults(m).into_iter().chain(long_faults(m)).chain(tl) {
             let mut all = common.clone();
             all.extend(f.setup.iter().cloned());
             all.extend(f.lines.iter().cloned());
@@ -1324,6 +1406,84 @@ fn run(ctx: &mut Ctx) {
                 );
                 ctx.count("transitions", compared);
                 ctx.count("cases/okane-binary", 1);
+            }
+        }
+    }
+
+    // ---- family 6: the END of the entry. Last line of the entry = posting / posting with inline note / `;` comment /
+    // tag line / key-value line / note line of a directive, followed by 0-3 empty lines or a whitespace-only line and
+    // then the next entry or the end of the file (and EOF without final newline): full product, no deviation bound ----
+    {
+        let all_trails = trails();
+        ctx.fact("entry_end_trails", all_trails.len() as u64);
+        ctx.fact("entry_end_last_line_kinds", NTAILS as u64);
+        let mbs: Vec<u8> = if thorough { (0..DOMS[S_MB]).collect() } else { vec![0] };
+        let bin = okane_binary();
+        for mb in mbs {
+            let m = marker(mb);
+            for eol in 0..2u8 {
+                let mut s: Slots = [0; NSLOTS];
+                s[S_PREFIX] = 2;
+                s[S_EOL] = eol;
+                s[S_MB] = mb;
+                for f0 in &by_mb[&mb] {
+                    // every semantic fault; syntactic ones whose fault is not on the last line (the tail stays untouched text)
+                    if f0.kind == Kind::Syntax && f0.fault + 1 >= f0.lines.len() {
+                        continue;
+                    }
+                    for tail in 0..NTAILS {
+                        let f = match tailed(f0, tail, m) {
+                            Some(f) => f,
+                            None => continue,
+                        };
+                        for trail in &all_trails {
+                            let locs: Vec<Loc> = locations(&f, false).into_iter().filter(|l| thorough || l.kind == LocKind::Root || (l.pre == 0 && !l.setup_in_root && (l.kind == LocKind::Lit1 || l.kind == LocKind::Glob2))).collect();
+                            for loc in locs {
+                                if !ctx.next_is_mine() {
+                                    ctx.skip_cases(1);
+                                    continue;
+                                }
+                                let bf = build_bad_file_with(&s, &f, !loc.setup_in_root, 0, Some(trail));
+                                let lay = build_layout("/v", &loc, &f, &bf);
+                                let mut compared = 0u64;
+                                ctx.case(
+                                    || describe(&s, &f, &loc, &lay, &bf, &format!("fake-fs; after the entry: {} (suffix/gap-after/final-newline slots overridden)", trail.name())),
+                                    || {
+                                        let obs = observe_fake(&lay);
+                                        judge(&obs, &lay, &bf, &f, &loc, "fake-fs", &mut compared)
+                                    },
+                                );
+                                ctx.count("transitions", compared);
+                                ctx.count("cases/entry-end", 1);
+                            }
+                            // the real binary: the unbalanced transaction, LF, root file
+                            if mb == 0 && eol == 0 && f0.name == "unbalanced" {
+                                if !ctx.next_is_mine() {
+                                    ctx.skip_cases(1);
+                                    continue;
+                                }
+                                let loc = Loc { kind: LocKind::Root, pre: 0, setup_in_root: false, incb: 0 };
+                                let bf = build_bad_file_with(&s, &f, true, 0, Some(trail));
+                                let lay = build_layout(&format!("{}/binend-{:?}", base, loc.kind), &loc, &f, &bf);
+                                let args: Vec<String> = vec!["balance".into(), lay.root.clone()];
+                                let mut compared = 0u64;
+                                ctx.case(
+                                    || describe(&s, &f, &loc, &lay, &bf, &format!("real files, real binary (stderr), $ okane {}; after the entry: {}", args.join(" "), trail.name())).replace(&base, "<scratch>"),
+                                    || {
+                                        let obs = observe_bin(&bin, &lay, &mut made, &args);
+                                        let mut o = judge(&obs, &lay, &bf, &f, &loc, "bin-balance", &mut compared);
+                                        if let crate::fw::Verdict::Violation { sig, detail } = &o.verdict {
+                                            o = Outcome::violation(sig.clone(), detail.replace(&base, "<scratch>"));
+                                        }
+                                        o
+                                    },
+                                );
+                                ctx.count("transitions", compared);
+                                ctx.count("cases/okane-binary", 1);
+                            }
+                        }
+                    }
+                }
             }
         }
     }
